@@ -27,6 +27,7 @@ type Env struct {
 	depth    int
 	pkg      *ssa.Package
 	loopEntry State // state just before the enclosing loop was entered (for entry(e))
+	fallback  *Env  // for old()/entry(): local variables keep their current values
 }
 
 func (v *FnVC) newEnv(st State, old *Env) *Env {
@@ -307,6 +308,9 @@ func (v *FnVC) specIdent(name string, env *Env, cl *Clause) Term {
 		if t, ok := v.params[name]; ok {
 			return t
 		}
+		if env.fallback != nil && v.lookupLocal(name, env.pos) != nil {
+			return v.specIdent(name, env.fallback, cl)
+		}
 	}
 	// ghost variable
 	if g, ok := v.w.cs.Ghosts[name]; ok {
@@ -475,6 +479,8 @@ func (v *FnVC) specCall(x *CallE, env *Env, cl *Clause) Term {
 			}
 		}
 		oe.pos = env.pos
+		oe.results = env.results
+		oe.fallback = env
 		return v.specTerm(x.Args[0], &oe, cl)
 	case "entry":
 		if env.loopEntry == nil {
@@ -504,6 +510,16 @@ func (v *FnVC) specCall(x *CallE, env *Env, cl *Clause) Term {
 			r = fmt.Sprintf("(sl_ref %s)", a.S)
 		}
 		return Term{fmt.Sprintf("(>= %s %s)", r, envGet(v, base, "nextref")), tBool}
+	case "arrayOf":
+		// the whole backing array of a slice, as a value (for frame statements)
+		a := v.specTerm(x.Args[0], env, cl)
+		sl, ok := a.T.Underlying().(*types.Slice)
+		if !ok {
+			v.specFail(cl, "arrayOf needs a slice")
+		}
+		var out string
+		v.withState(env.st, func() { out = fmt.Sprintf("(select %s (sl_ref %s))", v.get(v.elemKey(sl.Elem())), a.S) })
+		return Term{out, types.NewArray(sl.Elem(), 0)}
 	case "same":
 		a := v.specTerm(x.Args[0], env, cl)
 		b := v.specTerm(x.Args[1], env, cl)
